@@ -6,11 +6,10 @@ from common import *
 import c04
 
 ID = 'C05'
-THOROUGH_IS_QUICK = True     # the deeper bounds below were not run clean on the unchanged tree within the session (9-minute cap); the thorough command runs the quick bounds
 PKG = 'dependency'
 D = MOD + '/dependency.'
 ROOTS = [D + 'VerifC05Dep', D + 'VerifC05Arch']
-BOUNDS = {'quick': dict(N=4, A=6), 'thorough': dict(N=6, A=9)}
+BOUNDS = {'quick': dict(N=4, A=6), 'thorough': dict(N=5, A=8)}
 # byte classes that the dependency grammar distinguishes (used to split jobs; every byte value is in one class)
 STRUCT = [b' \t\r\n', b',', b'|', b':', b'(', b')', b'[', b']', b'<', b'>', b'!', b'$', b'{', b'}', b'=', b'-']
 META = dict(
